@@ -97,6 +97,11 @@ Definition parse_mode (s : str) : str :=
 
 Definition sep_byte (s : str) : N := nth 0 s 0.
 
+(* strconv.ParseUint(port, 10, 16) succeeds: non-empty, decimal digits only, value below 2^16 *)
+Definition dec_value (s : str) : N := fold_left (fun acc c => acc * 10 + (c - 48)) s 0.
+Definition valid_port16 (p : str) : bool :=
+  negb (is_empty p) && forallb is_digit p && (dec_value p <=? 65535).
+
 Definition parse_proxy (s0 : str) : option pproxy :=
   let s := if parse_proxy_trims then trim_space s0 else s0 in
   if is_empty s then Some no_proxy
@@ -106,7 +111,9 @@ Definition parse_proxy (s0 : str) : option pproxy :=
        | Some (mode, hostport) =>
            match split_host_port hostport with
            | None => None
-           | Some (h, p) => Some {| pp_mode := parse_mode mode; pp_host := h; pp_port := p |}
+           | Some (h, p) =>
+               if parse_proxy_validates_port && negb (valid_port16 p) then None
+               else Some {| pp_mode := parse_mode mode; pp_host := h; pp_port := p |}
            end
        end.
 
